@@ -17,8 +17,8 @@
    - parse/compare: fields of semver.NewVersion and the result of Version.Compare;
    - OCI tag listings (registry stub serving pages): Client.Tags against Tags.client_tags on the
      pages (same strings as a multiset, position-wise the same precedence class);
-     ValidateReference and GetTagMatchingVersionOrConstraint on the OBSERVED tag list,
-     compared exactly. *)
+     ValidateReference, GetTagMatchingVersionOrConstraint and Resolve (one OCI dependency) on
+     the OBSERVED tag list, compared exactly. *)
 From Coq Require Import List String Ascii Bool NArith.
 From Helm Require Import Misc.Semver Misc.Constraint Misc.Index Misc.Tags.
 Import ListNotations.
@@ -39,7 +39,7 @@ Inductive vr_obs := OVOk (t : string) | OVErr | OVPanic.
 Record oci_obs := mkOci {
   o_pages : list (list string);
   o_tags : option (list string);
-  o_qs : list (string * vr_obs * tag_obs)
+  o_qs : list (string * vr_obs * tag_obs * res_obs)    (* + Resolve of one OCI dependency *)
 }.
 
 Record cmp_obs := mkCmp { cm_a : ver_obs; cm_b : ver_obs; cm_cmp : option comparison }.
@@ -284,9 +284,14 @@ Definition oci_ok (q : oci_obs) : bool :=
   | None => false                                  (* the stub's listing is always well-formed *)
   | Some obs_tags =>
       tag_lists_agree (client_tags sisort (o_pages q)) obs_tags &&
-      forallb (fun x => let '(v, vr, tm) := x in
+      forallb (fun x => let '(v, vr, tm, rs) := x in
                         vr_agree (validate_reference_tags cvalid sat obs_tags v) vr &&
-                        tag_agree (tag_match cvalid sat obs_tags v) tm)
+                        tag_agree (tag_match cvalid sat obs_tags v) tm &&
+                        match resolve_oci_tags cvalid sat obs_tags v, rs with
+                        | DLocked t, OROk [t'] => String.eqb t t'
+                        | DFail, ORErr | DMissing, ORErr => true
+                        | _, _ => false
+                        end)
               (o_qs q)
   end.
 
